@@ -307,7 +307,7 @@ func decVsSpec(u *unitSpec, res *bits.DecResult) (checked int, bad []string) {
 
 // roundTrip checks enc then dec is the identity on every field bit that reaches the wire,
 // directly on the two extracted maps (independent of the layout table).
-func roundTrip(enc *bits.EncResult, dec *bits.DecResult, decAlt string) (checked int, bad []string) {
+func roundTrip(enc *bits.EncResult, dec *bits.DecResult, decAlt string, only map[string]bool) (checked int, bad []string) {
 	if decAlt != "" {
 		for _, a := range dec.Alts {
 			for _, c := range a.Cond {
@@ -353,6 +353,9 @@ func roundTrip(enc *bits.EncResult, dec *bits.DecResult, decAlt string) (checked
 	}
 	sort.Strings(fs)
 	for _, f := range fs {
+		if only != nil && !only[f] {
+			continue // partial unit: fields outside the layout are not compared here
+		}
 		for j, b := range dec.Fields[f] {
 			if b.K != bits.BSrc || !strings.HasPrefix(b.Src, "W:") {
 				continue
@@ -409,6 +412,28 @@ var layoutUnits = []*unitSpec{
 		decSkip: map[string]bool{}},
 	{name: "RunLengthChunk", rfc: "draft-holmer-rmcat-transport-wide-cc-extensions-01 3.1.3", enc: "RunLengthChunk.Marshal", dec: "*RunLengthChunk.Unmarshal",
 		layout: []string{"@0 0 PacketStatusSymbol:2 RunLength:13"}, decConst: map[string]uint64{"Type": 0}},
+	{name: "StatusVectorChunk/one-bit", rfc: "draft-holmer-rmcat-transport-wide-cc-extensions-01 3.1.4 (one-bit symbols)", enc: "", dec: "*StatusVectorChunk.Unmarshal", decAlt: "!W:0.6",
+		layout: []string{"@0 _:1 SymbolSize:1 SymbolList[0]:1 SymbolList[1]:1 SymbolList[2]:1 SymbolList[3]:1 SymbolList[4]:1 SymbolList[5]:1 SymbolList[6]:1 SymbolList[7]:1 SymbolList[8]:1 SymbolList[9]:1 SymbolList[10]:1 SymbolList[11]:1 SymbolList[12]:1 SymbolList[13]:1"}, decConst: map[string]uint64{"Type": 1}},
+	{name: "StatusVectorChunk/two-bit", rfc: "draft-holmer-rmcat-transport-wide-cc-extensions-01 3.1.4 (two-bit symbols)", enc: "", dec: "*StatusVectorChunk.Unmarshal", decAlt: "W:0.6",
+		layout: []string{"@0 _:1 SymbolSize:1 SymbolList[0]:2 SymbolList[1]:2 SymbolList[2]:2 SymbolList[3]:2 SymbolList[4]:2 SymbolList[5]:2 SymbolList[6]:2"}, decConst: map[string]uint64{"Type": 1}},
 	{name: "CCFeedbackMetricBlock", rfc: "RFC 8888 3.1 (metric block, received)", enc: "CCFeedbackMetricBlock.marshal", dec: "*CCFeedbackMetricBlock.unmarshal", decAlt: "W:0.7",
 		layout: []string{"@0 Received:1 ECN:2 ArrivalTimeOffset:13"}},
+}
+
+// layoutFields: the Go fields a unit's layout lists (nil for complete units: everything is compared).
+func layoutFields(u *unitSpec) map[string]bool {
+	if !u.partial {
+		return nil
+	}
+	_, exp, err := u.expand()
+	if err != nil {
+		return nil
+	}
+	out := map[string]bool{}
+	for _, e := range exp {
+		if e.kind == 'f' {
+			out[e.field] = true
+		}
+	}
+	return out
 }
